@@ -81,6 +81,8 @@ type reqLog struct {
 	CtlRan     bool
 	Escaped    any
 	Status     int
+	// GoneBeforeHandler: a middleware saw the scope report disposed (the request's context had been cancelled)
+	GoneBeforeHandler bool
 }
 
 func (l *reqLog) ev(s string) { l.mu.Lock(); l.Events = append(l.Events, s); l.mu.Unlock() }
@@ -122,11 +124,12 @@ type appCfg struct {
 	NoScopeMW     bool // Handle mounted without the scope middleware
 	HasInit       bool // an initializer function exists (needed for scope-fail)
 	Decoy         bool // a second Handle wrapper with the opposite options is built afterwards (its route is never requested)
+	ErrHPassive   bool // the custom error handler only answers the request; it does not tell the framework to stop (gin: no Abort)
 }
 
 func (c appCfg) String() string {
-	return fmt.Sprintf("%s mw=%d customErr=%v customClose=%v handle=%v recovery=%v customHandle=%v ctl=%v noScopeMW=%v init=%v decoy=%v",
-		c.Framework, c.NMw, c.CustomErr, c.CustomClose, c.UseHandle, c.Recovery, c.CustomHandle, c.CtlRegistered, c.NoScopeMW, c.HasInit, c.Decoy)
+	return fmt.Sprintf("%s mw=%d customErr=%v(passive=%v) customClose=%v handle=%v recovery=%v customHandle=%v ctl=%v noScopeMW=%v init=%v decoy=%v",
+		c.Framework, c.NMw, c.CustomErr, c.ErrHPassive, c.CustomClose, c.UseHandle, c.Recovery, c.CustomHandle, c.CtlRegistered, c.NoScopeMW, c.HasInit, c.Decoy)
 }
 
 func buildProvider(w *webWorld, cfg appCfg) (godi.Provider, error) {
@@ -174,7 +177,31 @@ func (w *webWorld) onMiddleware(i int, s godi.Scope, id string) error {
 	if p := w.plan(id); p.Exit == "mw-err" && p.MwFailAt == i {
 		return fmt.Errorf("middleware %d failed", i)
 	}
+	if p := w.plan(id); p.Exit == "scope-gone" && p.MwFailAt == i {
+		// the client goes away while the middlewares run: the request's context is cancelled and
+		// its scope is closed (by the scope's context watcher) before the handler is reached
+		w.scopeGone(id, s)
+	}
 	return nil
+}
+
+// scopeGone cancels the request's context and waits (bounded) until the scope reports disposed.
+func (w *webWorld) scopeGone(id string, sc godi.Scope) bool {
+	if c, ok := cancels.Load(id); ok {
+		c.(context.CancelFunc)()
+	}
+	deadline := time.Now().Add(5 * time.Second)
+	for time.Now().Before(deadline) {
+		if _, err := sc.Get(probeType); errors.Is(err, godi.ErrScopeDisposed) {
+			l := w.log(id)
+			l.mu.Lock()
+			l.GoneBeforeHandler = true
+			l.mu.Unlock()
+			return true
+		}
+		time.Sleep(50 * time.Microsecond)
+	}
+	return false
 }
 
 // mwWrites reports whether the request's failing middleware answers the request
@@ -433,7 +460,14 @@ func ginAdapter(w *webWorld, p godi.Provider, cfg appCfg) func(string) (int, any
 		}))
 	}
 	if cfg.CustomErr {
-		opts = append(opts, godigin.WithErrorHandler(func(c *gin.Context, err error) { w.count(reqID(c.Request), "errH"); c.AbortWithStatus(599) }))
+		opts = append(opts, godigin.WithErrorHandler(func(c *gin.Context, err error) {
+			w.count(reqID(c.Request), "errH")
+			if cfg.ErrHPassive {
+				c.String(599, "custom") // answers the request and leaves it at that
+				return
+			}
+			c.AbortWithStatus(599)
+		}))
 	}
 	if cfg.CustomClose {
 		opts = append(opts, godigin.WithCloseErrorHandler(func(error) { closeErrs.Add(1) }))
@@ -721,7 +755,21 @@ func judge(cfg appCfg, pl *plan, l *reqLog, status int, escaped any, providerClo
 			return ff("error-handler", fw+"/spurious", "error handler ran %d times on exit path %s", l.ErrH, pl.Exit)
 		}
 		// --- Handle semantics
-		if cfg.UseHandle {
+		if pl.Exit == "scope-gone" && !l.GoneBeforeHandler {
+			// the scope did not report disposed within the wait: what Handle found is anybody's guess
+		} else if cfg.UseHandle && l.GoneBeforeHandler {
+			// the request's scope was closed before Handle could resolve the controller:
+			// the method must not run, and exactly one of Handle's two error handlers does
+			if l.CtlRan {
+				return ff("handle", fw+"/called-on-closed-scope", "controller method ran although the request's scope had been closed before Handle resolved the controller (events %s)", ev)
+			}
+			if cfg.CustomHandle && l.ScopeErrH+l.ResErrH != 1 {
+				return ff("handle", fw+"/handlers-on-closed-scope", "the request's scope was closed before Handle resolved the controller: want exactly one of the scope-error / resolution-error handlers; scope=%d resolution=%d (events %s)", l.ScopeErrH, l.ResErrH, ev)
+			}
+			if l.PanicH != 0 {
+				return ff("handle-recovery", fw+"/spurious", "panic handler ran without a panic")
+			}
+		} else if cfg.UseHandle {
 			if cfg.CtlRegistered {
 				if !l.CtlRan {
 					return ff("handle", fw+"/not-called", "controller method did not run (events %s)", ev)
@@ -793,6 +841,7 @@ func TestC16Web(t *testing.T) {
 			CustomHandle:  rapid.Bool().Draw(rt, "customHandle"),
 			CtlRegistered: rapid.IntRange(0, 3).Draw(rt, "ctl") != 0,
 			HasInit:       rapid.Bool().Draw(rt, "hasInit"),
+			ErrHPassive:   rapid.Bool().Draw(rt, "errHPassive"),
 		}
 		if cfg.UseHandle {
 			cfg.NoScopeMW = rapid.IntRange(0, 5).Draw(rt, "noScopeMW") == 0
@@ -813,11 +862,18 @@ func TestC16Web(t *testing.T) {
 			}
 		}
 		serve := adapters[cfg.Framework](w, p, cfg)
-		exits := []string{"ok", "ok", "mw-err", "handler-err", "handler-panic", "scope-fail", "client-gone"}
+		exits := []string{"ok", "ok", "mw-err", "handler-err", "handler-panic", "scope-fail", "client-gone", "scope-gone"}
 		nreq := 0
 		mkPlan := func() *plan {
 			nreq++
 			pl := &plan{ID: fmt.Sprintf("q%d", nreq), Exit: rapid.SampledFrom(exits).Draw(rt, "exit")}
+			if pl.Exit == "scope-gone" {
+				if cfg.NMw == 0 || cfg.Framework == "fiber" || cfg.NoScopeMW {
+					pl.Exit = "ok" // needs a configured middleware to stage it; fiber's user context is not tied to the connection
+				} else {
+					pl.MwFailAt = rapid.IntRange(0, cfg.NMw-1).Draw(rt, "goneAt")
+				}
+			}
 			if pl.Exit == "mw-err" {
 				pl.MwFailAt = rapid.IntRange(0, 3).Draw(rt, "mwFailAt")
 				pl.MwWrites = rapid.IntRange(0, 2).Draw(rt, "mwWrites") == 0
